@@ -53,6 +53,10 @@ func (s tstep) lean() string {
 		return ".txtPair"
 	case "txtfirst":
 		return ".txtFirst"
+	case "octet":
+		return ".octet"
+	case "tokstr":
+		return ".tokStr"
 	case "blank":
 		return ".blank"
 	case "slurp":
@@ -106,6 +110,7 @@ func (p *pkgInfo) parsePlanOf(fd *ast.FuncDecl, depth int) ([]tstep, bool) {
 	nameVar, nameOk := "", ""               // the last toAbsoluteName: name variable, ok variable
 	endVar, endErr, endKind := "", "", ""   // the last endingToString / endingToTxtSlice
 	rawTok := ""                            // field that takes the raw token (after an `if l.err` check)
+	strTok := ""                            // field that takes the token after an `if l.value != zString` check
 	lhsNames := func(s *ast.AssignStmt) []string {
 		var ns []string
 		for _, l := range s.Lhs {
@@ -140,6 +145,11 @@ func (p *pkgInfo) parsePlanOf(fd *ast.FuncDecl, depth int) ([]tstep, bool) {
 					endVar, endErr, endKind = ns[0], ns[1], "endstr"
 					continue
 				}
+				if _, ok := isCall(s.Rhs[0], "", "endingToOctetString"); ok && len(s.Lhs) == 2 {
+					ns := lhsNames(s)
+					endVar, endErr, endKind = ns[0], ns[1], "octet"
+					continue
+				}
 				if _, ok := isCall(s.Rhs[0], "", "endingToTxtSlice"); ok && len(s.Lhs) == 2 {
 					ns := lhsNames(s)
 					endVar, endErr, endKind = ns[0], ns[1], "txt"
@@ -159,6 +169,10 @@ func (p *pkgInfo) parsePlanOf(fd *ast.FuncDecl, depth int) ([]tstep, bool) {
 					case rhs == "l.token" && rawTok == f:
 						out = append(out, tstep{Kind: "tok", Field: f})
 						rawTok = ""
+						continue
+					case rhs == "l.token" && strTok == f:
+						out = append(out, tstep{Kind: "tokstr", Field: f})
+						strTok = ""
 						continue
 					case rhs == "l.token":
 						continue // provisional, overwritten by the absolute name
@@ -185,6 +199,16 @@ func (p *pkgInfo) parsePlanOf(fd *ast.FuncDecl, depth int) ([]tstep, bool) {
 					strings.HasSuffix(body, "}rr.Algorithm=i}") && els == "{rr.Algorithm=uint8(i)}" {
 					out = append(out, tstep{Kind: "uintalg", Bits: 8, Field: "Algorithm"})
 					continue
+				}
+				return nil, false
+			}
+			// `if l.value != zString { return … }` in front of `rr.F = l.token`: the token, which must be a string token
+			if s.Else == nil && s.Init == nil && p.src(s.Cond) == "l.value!=zString" && len(s.Body.List) == 1 {
+				if _, ok := s.Body.List[0].(*ast.ReturnStmt); ok && idx+1 < len(stmts) {
+					if as, ok := stmts[idx+1].(*ast.AssignStmt); ok && len(as.Lhs) == 1 && len(as.Rhs) == 1 && rrField(as.Lhs[0]) != "" && p.src(as.Rhs[0]) == "l.token" {
+						strTok = rrField(as.Lhs[0])
+						continue
+					}
 				}
 				return nil, false
 			}
@@ -260,7 +284,7 @@ func (p *pkgInfo) parsePlanOf(fd *ast.FuncDecl, depth int) ([]tstep, bool) {
 			return nil, false
 		}
 	}
-	if uintVar != "" || nameVar != "" || endVar != "" || rawTok != "" {
+	if uintVar != "" || nameVar != "" || endVar != "" || rawTok != "" || strTok != "" {
 		return nil, false
 	}
 	return out, true
@@ -383,6 +407,10 @@ func (p *pkgInfo) printPlanOf(fd *ast.FuncDecl, typ string) ([]tstep, bool) {
 					continue
 				}
 			}
+		}
+		if c, ok := isCall(l, "", "sprintTxtOctet"); ok && len(c.Args) == 1 && rrField(c.Args[0]) != "" {
+			out = append(out, tstep{Kind: "octet", Field: rrField(c.Args[0])})
+			continue
 		}
 		if c, ok := isCall(l, "strings", "ToUpper"); ok && len(c.Args) == 1 && rrField(c.Args[0]) != "" {
 			out = append(out, tstep{Kind: "endstr", Field: rrField(c.Args[0]), Upper: true})
